@@ -2,45 +2,148 @@
 from __future__ import annotations
 import re
 
+COMMON_ASSUME = [
+    "usize is 64 bits; array length < 2^62 (Queryable::as_array contract)",
+    "AST integers are in the I-JSON range (parser call sites of validate_range are pest code; validate_range itself is proved)",
+    "implementors of Queryable are faithful (accessor contracts in contracts/queryable_trait.rs)",
+    "extraction rules E1-E8 preserve meaning (generated worlds are re-type-checked by rustc; each application is logged)",
+]
 PROPS = {
+    "C01": {
+        "level": "other",
+        "explanation": "Mixed. PROVED (Verus, unbounded, modular): every function from js_path / js_path_process down to the leaf "
+                       "selectors meets a contract stated with the RFC 9535 spec functions (contracts/spec_*.rs), so for union-free, "
+                       "well-formed queries js_path_process returns exactly rfc_query(q, root) as a sequence of (value, path). "
+                       "ASSUMED in those proofs and BOUNDED-checked on the real functions: process_descendant, process_selectors, "
+                       "Pointer::key/idx text, normalize_json_key + Queryable::get, the iterator-shape helper contracts. "
+                       "BOUNDED (native): js_path_process vs the executable rfc_query on all (AST, document) pairs inside the stated bound, "
+                       "location by pointer identity.",
+        "assumptions": COMMON_ASSUME + ["queries with multi-selector segments are outside the Verus claim (known finding C02) and covered by the bounded back end only"],
+    },
+    "C02": {
+        "level": "other",
+        "explanation": "Mixed. PROVED (Verus): Data::reduce keeps the left operand first and removes nothing; Data::flat_map / State::flat_map "
+                       "concatenate per input node in input order; slice index sequence (ascending/descending); wildcard and filter child order; "
+                       "segment fold; `..` pre-order modulo the assumed process_descendant contract. All specs are sequences, so every C01 obligation "
+                       "is an ordering obligation. BOUNDED: process_descendant pre-order, process_selectors (members and order clauses), end-to-end order.",
+        "assumptions": COMMON_ASSUME,
+    },
+    "C03": {
+        "level": "other",
+        "explanation": "Mixed. PROVED (Verus): which step is appended — the normalised non-negative in-range index with the element it denotes "
+                       "(process_index, process_slice), the real index / member name of each child (wildcard, filter), `$` for the root, "
+                       "projection of (node, path) to the caller. BOUNDED (native): the TEXT of a step (Pointer::key / Pointer::idx are format! code), "
+                       "injectivity, and re-querying a reported path.",
+        "assumptions": COMMON_ASSUME,
+    },
+    "C04": {
+        "level": "proof",
+        "explanation": "Kani (CBMC) proves the real eq / lt on all scalar operands: loop-free harnesses over ALL i64 and ALL finite f64, every "
+                       "Value/Ref/Nothing operand shape, against an exact oracle (f64 bit decomposition compared in i128). Verus proves the operator "
+                       "dispatch of Comparison::process (!=, <=, >, >= derived from == and <), Comparison::vals, Comparison::try_new (token -> variant), "
+                       "literal and singular-query operand evaluation.",
+        "assumptions": COMMON_ASSUME + ["strings: str ordering of std is Unicode scalar order (UTF-8 byte order); two-element string set in the Kani harness",
+                                        "arrays/objects: structural equality is delegated to T: PartialEq (bounded check only; known finding for numbers nested in containers)"],
+    },
+    "C05": {
+        "level": "other",
+        "explanation": "Mixed. PROVED (Verus): Filter::select_children keeps exactly the children with filter_truth, in order, with idx/key paths; "
+                       "process_elem (or = exists, and = forall), filter_item, FilterAtom::process (negation; a query test is true iff its nodelist is "
+                       "non-empty, whatever the value), invert_bool, Test::process (`$` re-roots), the filter selector applied to `@`. filter_truth is a "
+                       "mutually recursive spec function over the real AST. BOUNDED: nested filters and all valuations of small formulas end to end. "
+                       "Precedence of && over || is in the pest grammar: not covered.",
+        "assumptions": COMMON_ASSUME + ["representation invariant: a pointer with an empty path denotes `@` (stated as is_cur in every filter-mode contract)"],
+    },
+    "C08": {
+        "level": "proof",
+        "explanation": "Scoped to the arithmetic core and the Ok/Err mapping. Verus proves, for all lengths < 2^62 and all I-JSON integers: no overflow, "
+                       "no out-of-bounds access, termination of both slice loops (decreases), and that js_path_process returns Ok for every well-formed "
+                       "query (the state never becomes a Value at top level). validate_range is proved to accept exactly the I-JSON range. Kani probes "
+                       "process_index without precondition (shows the I-JSON precondition is necessary: i64::MIN). Parser panics, stack depth and "
+                       "wall-clock time are outside this technique.",
+        "assumptions": COMMON_ASSUME + ["exec termination of the recursive evaluator is not claimed (exec_allows_no_decreases_clause); only the slice loops"],
+    },
+    "C10": {
+        "level": "other",
+        "explanation": "Mixed. PROVED (Verus): count (number of nodes, 0 for none), value (the single node or nothing), length (dispatch by kind; "
+                       "chars().count() assumed = number of scalar values), TestFunction::apply routing, FnArg::process, the typing tables "
+                       "is_res_bool / is_comparable. BOUNDED: regex / prepare_regex (whole-string anchoring of match, search = find, non-strings and "
+                       "invalid patterns -> false); the regex engine is trusted.",
+        "assumptions": COMMON_ASSUME + ["regex crate is trusted", "functions are well-typed per RFC 9535 2.4.3 (wf_fn)"],
+    },
     "C11": {
         "level": "proof",
         "explanation": "Verus proves the verbatim bodies of process_index and process_slice (incl. its closures and both "
                        "loops) against the RFC 9535 2.3.3/2.3.4.2.2 spec functions for every length < 2^62 and every "
                        "I-JSON start/end/step/index; no unrolling, no bound.",
-        "assumptions": [
-            "array length < 2^62 (Queryable::as_array contract; a Vec of non-zero-sized elements cannot be longer)",
-            "usize is 64 bits",
-            "slice bounds/steps and indices are in the I-JSON range (parser's validate_range call sites; pest code is not verified)",
-        ],
+        "assumptions": COMMON_ASSUME,
+    },
+    "C15": {
+        "level": "other",
+        "explanation": "Mixed. Parametricity: every Verus proof is over an arbitrary T: Queryable and phrased only through the trait's spec accessors, so for the "
+                       "proved units the result is a function of the trait view for ALL implementations. The comparison kernel is additionally proved by Kani "
+                       "at a second faithful view (integers visible through as_i64 only). BOUNDED: end-to-end agreement of a non-serde_json instance with serde_json::Value.",
+        "assumptions": COMMON_ASSUME + ["eq_json falls back to T: PartialEq for non-numbers (outside the accessor view; bounded only)"],
     },
 }
 
 
+def _impl_type(u) -> str | None:
+    if not u.impl:
+        return None
+    m = re.search(r"impl(?:<[^>]*>)?\s+(?:[\w:]+(?:<[^>]*>)?\s+for\s+)?([A-Za-z_]\w*)", u.impl)
+    return m.group(1) if m else None
+
+
 def deps_of(u, units: dict, repo) -> set:
-    """over-approximate call graph: V is a dependency of U if V's fn name is called in U's body"""
+    """callees of U among the units: `Type::f(` / free `f(` by name; methods whose name is shared by several
+    units (process, flat_map, reduce) only through the explicit `calls` list of U"""
     from .world import _fn_of
     try:
-        body = _fn_of(u, repo).body
+        fn = _fn_of(u, repo)
+        body = fn.body
     except Exception:
-        return set()
-    out = set()
+        return set(u.calls)
+    out = set(u.calls)
+    params = set(re.findall(r"\b([a-z_]\w*)\s*:", fn.params))
+    by_fn: dict = {}
+    for v in units.values():
+        by_fn.setdefault(v.fn, []).append(v)
     for n, v in units.items():
-        if n != u.name and re.search(r"\b" + re.escape(v.fn) + r"\s*(\(|\)|,)", body):
+        if n == u.name:
+            continue
+        ty = _impl_type(v)
+        if ty and re.search(r"\b" + re.escape(ty) + r"(?:::<[^>]*>)?::" + re.escape(v.fn) + r"\b", body):
+            out.add(n)
+        elif not ty and v.fn not in params and (re.search(r"(?<![.:\w])" + re.escape(v.fn) + r"\s*\(", body)
+                                                or re.search(r"\(\s*" + re.escape(v.fn) + r"\s*\)", body)):
+            out.add(n)
+        elif ty and len(by_fn[v.fn]) == 1 and re.search(r"\." + re.escape(v.fn) + r"\s*\(", body):
             out.add(n)
     return out
 
 
+# where the callee closure of a property stops: the callee is another property's business
+STOP_AT = {
+    "C02": {"Filter::filter_item"},
+    "C03": {"Filter::filter_item"},
+    "C04": {"TestFunction::process", "process_index", "process_key"},
+    "C05": {"Comparison::process", "TestFunction::process", "Vec<Segment>::process", "JpQuery::process"},
+    "C10": {"Test::process", "Filter::process", "Comparison::process", "SingularQuery::process", "Literal::process"},
+}
+
+
 def units_for(prop: str, units: dict, repo=None) -> list[str]:
-    """units that serve the property, closed under (over-approximated) callees"""
-    todo = [n for n, u in units.items() if prop in u.serves]
+    """units that serve the property, closed under callees (up to STOP_AT)"""
+    stop = STOP_AT.get(prop, set())
+    todo = [n for n, u in units.items() if prop in u.serves or (prop == "C15" and "C01" in u.serves)]
     seen = set(todo)
     while todo and repo is not None:
         n = todo.pop()
         if units[n].status != "proved":
             continue
         for d in deps_of(units[n], units, repo):
-            if d not in seen:
+            if d not in seen and d not in stop:
                 seen.add(d)
                 todo.append(d)
     return [n for n, u in sorted(units.items(), key=lambda kv: (kv[1].order, kv[0])) if n in seen and u.status == "proved"]
